@@ -18,6 +18,24 @@ from .snap import snapshot
 KNOWN_PATH = os.path.join(os.path.dirname(os.path.dirname(os.path.abspath(__file__))), "known_findings.json")
 
 
+class StepTimeout(Exception):
+    """raised by the per-step watchdog inside whatever code is running (normally the SUT):
+    a call that does not return within the budget is reported like a call that raised"""
+
+
+STEP_BUDGET_S = float(os.environ.get("VERIF_STEP_BUDGET", "20"))
+
+
+def _on_alarm(signum, frame):
+    raise StepTimeout(f"step did not finish within {STEP_BUDGET_S:.0f} s")
+
+
+def install_watchdog():
+    import signal
+
+    signal.signal(signal.SIGALRM, _on_alarm)
+
+
 def import_xgi():
     src = os.environ.get("XGI_SRC", "/repo")
     if src not in sys.path:
@@ -107,6 +125,18 @@ class Sim:
         return act
 
     def exec_step(self, rec):
+        import signal
+
+        armed = signal.getsignal(signal.SIGALRM) is _on_alarm
+        if armed:
+            signal.setitimer(signal.ITIMER_REAL, STEP_BUDGET_S)
+        try:
+            self._exec_step(rec)
+        finally:
+            if armed:
+                signal.setitimer(signal.ITIMER_REAL, 0)
+
+    def _exec_step(self, rec):
         w = self.world
         w.step_no += 1
         op = rec["op"]
